@@ -18,7 +18,7 @@ RULE = ('Exhaustive part (replayed first in every run): each of the 5 level-1 an
         'disk, and against the identities the transforms and their hand-written gradients assume (symmetry, biorthogonal PR, '
         'orthonormality, tree b = reverse(tree a), synthesis = reverse(analysis), band-pass variants included); every loader that accepts a name must hand out the arrays of the shipped file in its documented order; the two extra '
         'files (8-array level-1 tables of the legacy classes, loaded through level1(name)) are checked for load-equality and against the file. Generated part: histories (lists of up to 30 '
-        'operations: load, load-again, a request through a loader that does not fit the table, construct a DTCWT / scattering / legacy module, run it forward, run forward+backward, drop the '
+        'operations: load, load-again, a request through a loader that does not fit the table, construct a DTCWT / scattering / legacy module, run it forward, run forward+backward, switch the process default dtype (float64 / float32), drop the '
         'cache) with the invariant after every step that every table still equals the file on disk. Non-trivial history = at '
         'least one module call between two loads of the same table. Distinct = operation sequence.')
 ASSUMPTIONS = ['reference tables: dtcwt 0.14 package data', 'q-shift tables are stored to ~9 digits: orthonormality tolerance 1e-7',
@@ -48,6 +48,8 @@ def _case(draw, unit):
         st.tuples(st.just('call'), st.integers(0, 7), st.integers(0, 3)),
         st.tuples(st.just('backward'), st.integers(0, 7), st.integers(0, 3)),
         st.tuples(st.just('drop_cache')),
+        # the process switches torch's default dtype (as the library's own *_double tests do): tables do not depend on it
+        st.tuples(st.just('default_dtype'), st.sampled_from(['f64', 'f64', 'f32'])),
         st.tuples(st.just('wrong_loader'), st.sampled_from(names), st.integers(0, 2)),
         st.tuples(st.just('wrong_loader'), st.sampled_from(names), st.integers(0, 2)))
     first = draw(st.tuples(st.just('construct'), st.sampled_from(MODS), st.sampled_from(LEVEL1[:4]),
@@ -210,9 +212,18 @@ def _make(kind, b, q):
 
 
 def _history(case, r):
+    before = torch.get_default_dtype()
+    try:
+        return _history0(case, r)
+    finally:
+        torch.set_default_dtype(before)
+
+
+def _history0(case, r):
     import pytorch_wavelets.dtcwt.coeffs as pc
     from pytorch_wavelets import DTCWTInverse
     loaded, mods = {}, []
+    mdt = {}                        # precision each module was constructed in (its inputs are made in it)
     calls_since = {}
     r.label('history')
     for step, op in enumerate(case['ops']):
@@ -236,19 +247,21 @@ def _history(case, r):
             if not ok:
                 return r.fail(mk.bucket, 'constructing %s raised: %s' % (op[1:], mk))
             mods.append(mk[0])
+            mdt[id(mk[0])] = torch.get_default_dtype()
             for n in mk[1]:
                 loaded.setdefault(n, {k: np.array(v, copy=True) for k, v in _load(n).items()})
         elif kind in ('call', 'backward') and mods:
             m = mods[op[1] % len(mods)]
             if type(m).__name__ == 'DTCWTInverse2':
                 continue            # constructed only (its call signature needs a legacy pyramid)
+            dt_ = mdt.get(id(m), torch.float32)
             if isinstance(m, DTCWTInverse):
-                x = (torch.randn(1, 1, 4, 4, generator=torch.Generator().manual_seed(op[2])),
-                     [torch.randn(1, 1, 6, 4, 4, 2, generator=torch.Generator().manual_seed(op[2])),
-                      torch.randn(1, 1, 6, 2, 2, 2, generator=torch.Generator().manual_seed(op[2]))])
+                x = (torch.randn(1, 1, 4, 4, generator=torch.Generator().manual_seed(op[2]), dtype=dt_),
+                     [torch.randn(1, 1, 6, 4, 4, 2, generator=torch.Generator().manual_seed(op[2]), dtype=dt_),
+                      torch.randn(1, 1, 6, 2, 2, 2, generator=torch.Generator().manual_seed(op[2]), dtype=dt_)])
                 x[0].requires_grad_(kind == 'backward')
             else:
-                x = torch.randn(1, 3, 8 + 8 * (op[2] % 2), 16, generator=torch.Generator().manual_seed(op[2]))
+                x = torch.randn(1, 3, 8 + 8 * (op[2] % 2), 16, generator=torch.Generator().manual_seed(op[2]), dtype=dt_)
                 x.requires_grad_(kind == 'backward' and type(m).__name__ != 'DTCWTForward2')
             ok, y = lib(m, x)
             if not ok:
@@ -284,6 +297,9 @@ def _history(case, r):
                     return r.fail('load_after_rejected_request', 'after a rejected request for %s through another loader the '
                                   'proper load raises: %s' % (op[1], t))
                 loaded[op[1]] = {k: np.array(v, copy=True) for k, v in t.items()}
+        elif kind == 'default_dtype':
+            torch.set_default_dtype(torch.float64 if op[1] == 'f64' else torch.float32)
+            r.label('default_dtype_switched_to_' + op[1])
         elif kind == 'drop_cache':
             if isinstance(getattr(pc, 'COEFF_CACHE', None), dict):
                 pc.COEFF_CACHE.clear()
